@@ -3,11 +3,12 @@ use super::phys::{self, rel, Eval, EPS};
 use crate::engine::{self, Ctx, Failure, Spec, Tape, Tier};
 use crate::fail;
 use crate::gen::{self, Kin, Phys};
+use crate::sut;
 use crate::with_d;
 use serde::{Deserialize, Serialize};
 use std::time::Instant;
 
-pub const RULE: &str = "cases = accepted connected graphs (G-phys, E<=8 (thorough 9), L<=5, D=1..6), masses in [0.3,2], generic external momenta conserving momentum, TWO independent routings of the same kinematics (different spanning tree, unimodular column operations, orientation flips, loop-momentum offsets) and one structured x-space point. oracle: v against F/U from brute-force spanning 2-forests (+U*sum m^2 x) within 1000*eps*kappa*c_V, metadata u_vectors against sum_e x_e s_el p_e, and u, v, jacobian of the two routings agree. non-trivial = in-range point and (L>=2 with two non-zero u-vectors, or a massive edge, or a loop-momentum offset); distinct = distinct case encodings";
+pub const RULE: &str = "cases = accepted connected graphs (G-phys, E<=8 (thorough 9), L<=5, D=1..6), masses in [0.3,2], generic external momenta conserving momentum, TWO independent routings of the same kinematics (different spanning tree, unimodular column operations, orientation flips, loop-momentum offsets) and one structured x-space point. oracle: v against F/U from brute-force spanning 2-forests (+U*sum m^2 x) within 1000*eps*kappa*c_V, metadata u_vectors against sum_e x_e s_el p_e, and u, v, jacobian of the two routings agree; multiplying all masses and momenta by 2^k (|k|<=120) leaves u bit-identical, multiplies v by 4^k and the jacobian by 2^(-2k dod). non-trivial = in-range point and (L>=2 with two non-zero u-vectors, or a massive edge, or a loop-momentum offset); distinct = distinct case encodings";
 
 #[derive(Clone, Debug, Serialize, Deserialize)]
 pub struct Case {
@@ -96,6 +97,40 @@ fn check_d<const D: usize>(c: &Case, ctx: &mut Ctx) -> Result<(), Failure> {
     ctx.max("jac_two_routings_over_tol", rj / tj);
     if !(rj <= tj) {
         fail!("jacobian-routing-dependent", "jacobian differs between routings: {:e} vs {:e} (rel {rj:e} > {tj:e}) for {c:?}", ev.out.jac, ev2.out.jac);
+    }
+    // metamorphic: all masses and momenta times 2^k (exact in binary): u unchanged, v times 4^k, loop momenta times 2^k,
+    // jacobian times 2^(-2 k dod)
+    {
+        let kx = (c.a.x.iter().fold(0u64, |a, v| a.wrapping_mul(31).wrapping_add(v.to_bits())) % 241) as i32 - 120;
+        let sc = 2f64.powi(kx);
+        let mut b2 = c.a.clone();
+        b2.kin.masses.iter_mut().for_each(|m| *m *= sc);
+        b2.kin.shifts.iter_mut().for_each(|p| p.iter_mut().for_each(|x| *x *= sc));
+        b2.kin.inflow.iter_mut().for_each(|(_, p)| p.iter_mut().for_each(|x| *x *= sc));
+        let finite = b2.kin.masses.iter().chain(b2.kin.shifts.iter().flatten()).all(|x| x.is_finite() && (*x == 0.0 || x.abs() > 1e-150 && x.abs() < 1e150));
+        if finite && kx != 0 {
+            let g = &c.a.g;
+            let s = sut::build::<D>(g, c.a.kin.sig.clone());
+            if let Ok(s) = s {
+                let r2 = sut::sample_f64(&s, &c.a.x, sut::edge_data::<D>(&g.massive, &b2.kin.masses, &b2.kin.shifts), None, false, false);
+                if let Ok(o2) = r2 {
+                    if o2.all_finite() && ev.out.all_finite() {
+                        if o2.u.to_bits() != ev.out.u.to_bits() {
+                            fail!("u-depends-on-kinematic-scale", "u changes when masses and momenta are multiplied by 2^{kx}: {:e} vs {:e}", o2.u, ev.out.u);
+                        }
+                        let want_v = ev.out.v * sc * sc;
+                        if want_v.is_finite() && want_v > 1e-280 && !(rel(o2.v, want_v) <= 8.0 * EPS) {
+                            fail!("v-scaling", "v does not scale with the square of the kinematic scale 2^{kx}: {:e} vs 4^k * {:e}; case {c:?}", o2.v, ev.out.v);
+                        }
+                        let want_j = ev.out.jac * 2f64.powf(-2.0 * kx as f64 * ev.dod);
+                        if want_j.is_finite() && want_j > 1e-280 && !(rel(o2.jac, want_j) <= 64.0 * EPS * (1.0 + ev.dod.abs() * (o2.v.ln().abs() + ev.out.v.ln().abs()))) {
+                            fail!("jacobian-scaling", "jacobian does not scale as (2^{kx})^(-2 dod): {:e} vs {want_j:e}; case {c:?}", o2.jac);
+                        }
+                        ctx.label("scaling-relation-checked");
+                    }
+                }
+            }
+        }
     }
     let md = ev.out.meta.as_ref().unwrap();
     let nz: usize = md.uvec.iter().filter(|u| u.iter().any(|x| *x != 0.0)).count();
